@@ -78,6 +78,11 @@ func (e *pxEnv) close() {
 	}
 }
 
+// pxFeatures: optional 4th argument of `px new` — letters switching on features that must not
+// change what travels (c: circuit breaker, r: rate limiter, p: passive health checks, all with
+// thresholds no episode reaches; l: logging plugin)
+var pxFeatures = ""
+
 func pxNew(strategy, ids, base string) string {
 	if px != nil {
 		px.close()
@@ -92,6 +97,16 @@ func pxNew(strategy, ids, base string) string {
 		n, _ := io.Copy(h, r.Body)
 		o := pxObs{method: r.Method, uri: r.RequestURI, host: r.Host, hdr: r.Header.Clone(), cl: r.ContentLength,
 			te: r.TransferEncoding, blen: int(n), bhash: h.Sum32()}
+		if k := r.Header.Get("X-V-Conc"); k != "" {
+			// concurrent exchanges: every client asks for its own body
+			f := strings.Split(k, ".")
+			if len(f) == 2 {
+				sd, _ := strconv.Atoi(f[0])
+				n, _ := strconv.Atoi(f[1])
+				_, _ = w.Write(pxBody(n, sd))
+			}
+			return
+		}
 		select {
 		case e.obs <- o:
 		default:
@@ -132,6 +147,20 @@ func pxNew(strategy, ids, base string) string {
 	cfg.Backends = []config.BackendConfig{{Name: "b0", Address: e.backend.URL + e.base}}
 	cfg.Logging.RequestID.Enabled = ids[0] == '1'
 	cfg.Logging.Trace.Enabled = ids[1] == '1'
+	if strings.Contains(pxFeatures, "c") {
+		cfg.CircuitBreaker = config.CircuitBreakerConfig{Enabled: true, MaxRequests: 5, IntervalSeconds: 60, TimeoutSeconds: 60,
+			FailureThreshold: 1000000, SuccessThreshold: 2}
+	}
+	if strings.Contains(pxFeatures, "r") {
+		cfg.RateLimit = config.RateLimitConfig{Enabled: true, MaxTokens: 1000000, RefillRate: 1}
+	}
+	if strings.Contains(pxFeatures, "p") {
+		cfg.HealthChecks.Passive = config.PassiveHealthCheckConfig{Enabled: true, UnhealthyThreshold: 1000000, UnhealthyTimeout: 30}
+	}
+	if strings.Contains(pxFeatures, "l") {
+		cfg.Plugins.Enabled = true
+		cfg.Plugins.Chain = []config.PluginConfig{{Name: "logging"}}
+	}
 	lb, err := loadbalancer.NewLoadBalancer(cfg)
 	if err != nil {
 		e.close()
@@ -392,10 +421,72 @@ func xvOnly(h http.Header) string {
 	return canonHdr(x, nil)
 }
 
+// pxConc: n clients at once through Helios, each asking the backend for a body only it expects;
+// every byte each client reads must be its own (what travels does not depend on who else is served)
+func pxConc(n, l int) string {
+	e := px
+	if e == nil {
+		return "bad-op"
+	}
+	addr := e.ln.Addr().String()
+	errs := make([]string, n)
+	var wg sync.WaitGroup
+	for k := 0; k < n; k++ {
+		wg.Add(1)
+		go func(k int) {
+			defer wg.Done()
+			c, err := net.DialTimeout("tcp", addr, 2*time.Second)
+			if err != nil {
+				errs[k] = "dial"
+				return
+			}
+			defer c.Close()
+			_ = c.SetDeadline(time.Now().Add(20 * time.Second))
+			fmt.Fprintf(c, "GET /conc HTTP/1.1\r\nHost: verif.test\r\nConnection: close\r\nX-V-Conc: %d.%d\r\n\r\n", k+1, l)
+			resp, err := http.ReadResponse(bufio.NewReader(c), nil)
+			if err != nil {
+				errs[k] = "read:" + esc(err.Error())
+				return
+			}
+			body, err := io.ReadAll(resp.Body)
+			resp.Body.Close()
+			want := pxBody(l, k+1)
+			if err != nil || resp.StatusCode != 200 || len(body) != len(want) {
+				errs[k] = fmt.Sprintf("status=%d len=%d want=%d err=%v", resp.StatusCode, len(body), len(want), err != nil)
+				return
+			}
+			for i := range body {
+				if body[i] != want[i] {
+					errs[k] = fmt.Sprintf("byte %d of client %d's body is %d, the backend sent %d", i, k+1, body[i], want[i])
+					return
+				}
+			}
+		}(k)
+	}
+	wg.Wait()
+	for k, s := range errs {
+		if s != "" {
+			return fmt.Sprintf("conc MIXED client=%d %s", k+1, strings.ReplaceAll(s, " ", "_"))
+		}
+	}
+	return fmt.Sprintf("conc ok %d", n)
+}
+
 func pxOp(w []string) string {
 	switch {
 	case len(w) == 4 && w[0] == "new":
+		pxFeatures = ""
 		return pxNew(w[1], w[2], w[3])
+	case len(w) == 5 && w[0] == "new":
+		pxFeatures = w[4]
+		return pxNew(w[1], w[2], w[3])
+	case len(w) == 3 && w[0] == "conc":
+		n, err1 := strconv.Atoi(w[1])
+		l, err2 := strconv.Atoi(w[2])
+		if err1 != nil || err2 != nil || n < 1 || n > 64 || l < 0 || l > 64<<20 {
+			return "bad-op"
+		}
+		return pxConc(n, l)
 	case len(w) == 8 && w[0] == "x":
 		n, err := strconv.Atoi(w[5])
 		if err != nil {
